@@ -244,9 +244,22 @@ func (u *Unit) execCallVals(st *State, fr *Frame, site ssa.Instruction, c *ssa.C
 			return
 		}
 		// 5. external static callee without contract: results only
-		u.abstracted("extern call without contract (results havocked, heap kept): " + callee.String())
-		u.assume("package-boundary framing: an external function without a contract does not modify this module's objects")
-		u.unknownCall(st, fr, site, sig, desigs, argT, false, k)
+		ptrArg := false
+		for i := 0; i < sig.Params().Len(); i++ {
+			if u.P.TW.SortOf(sig.Params().At(i).Type()) == SV {
+				ptrArg = true
+			}
+		}
+		if sig.Recv() != nil && u.P.TW.SortOf(sig.Recv().Type()) == SV {
+			ptrArg = true
+		}
+		if ptrArg {
+			u.abstracted("extern call without contract, reference arguments (results and heap havocked): " + callee.String())
+		} else {
+			u.abstracted("extern call without contract, scalar arguments only (results havocked, heap kept): " + callee.String())
+			u.assume("package-boundary framing: an external function without a contract that receives only scalars does not modify this module's objects")
+		}
+		u.unknownCall(st, fr, site, sig, desigs, argT, ptrArg, k)
 		return
 	}
 	// interface / dynamic: assumed contract by designator?
@@ -823,6 +836,8 @@ func posOf(in ssa.Instruction) token.Pos {
 
 // modTarget is one evaluated modifies entry.
 type modTarget struct {
+	external bool
+	sortOf map[string]Sort
 	all   bool
 	key   string               // memory key ("" = by address only)
 	addr  *Term                // single location
@@ -871,7 +886,25 @@ func (u *Unit) evalModTarget(env *Env, ex Expr) (mt modTarget, all bool, err err
 	if id, ok := ex.(EIdent); ok && id.Name == "everything" {
 		return modTarget{}, true, nil
 	}
+	if id, ok := ex.(EIdent); ok && id.Name == "external" {
+		// everything code outside this module could write: all locations except
+		// module-private fields (and unleaked locals, handled by havocKey users)
+		mt.keys = nil
+		mt.external = true
+		mt.pred = func(addr Term) Term { return u.notPrivate(addr) }
+		return mt, false, nil
+	}
 	if c, ok := ex.(ECall); ok {
+		if g, isG := u.P.Ghosts[c.Fn]; isG && g.State && len(c.Args) == 1 {
+			v := env.eval(c.Args[0])
+			rs, _ := sortByName(u, g.Result)
+			u.ghostArr(env.st, "u_"+g.Name, rs)
+			a := v.T
+			mt.keys = []string{"ghost:u_" + g.Name}
+			mt.addr = &a
+			mt.pred = func(x Term) Term { return Eq(x, a) }
+			return mt, false, nil
+		}
 		switch c.Fn {
 		case "mem":
 			// mem("pkg.Type"): whole memory of that leaf type
@@ -909,8 +942,10 @@ func (u *Unit) evalModTarget(env *Env, ex Expr) (mt modTarget, all bool, err err
 			}
 			keys := map[string]bool{}
 			u.leafKeys(sl.Elem(), keys)
+			mt.sortOf = map[string]Sort{}
 			for k := range keys {
 				mt.keys = append(mt.keys, k)
+				mt.sortOf[k] = u.sortOfKey(sl.Elem(), k)
 			}
 			sort.Strings(mt.keys)
 			p := App("sptr", SV, v.T)
@@ -954,8 +989,10 @@ func (u *Unit) evalModTarget(env *Env, ex Expr) (mt modTarget, all bool, err err
 	a, ty := env.addrOf(ex)
 	keys := map[string]bool{}
 	u.leafKeys(ty, keys)
+	mt.sortOf = map[string]Sort{}
 	for k := range keys {
 		mt.keys = append(mt.keys, k)
+		mt.sortOf[k] = u.sortOfKey(ty, k)
 	}
 	sort.Strings(mt.keys)
 	addr := a
@@ -995,14 +1032,24 @@ func (u *Unit) applyModifies(st *State, fr *Frame, site ssa.Instruction, ct *Con
 		keys := t.keys
 		if keys == nil {
 			for k := range st.Mem {
+				if strings.HasPrefix(k, "ghost:") {
+					continue
+				}
 				keys = append(keys, k)
 			}
 			sort.Strings(keys)
+			locals := u.notInLocals(u.unleakedLocals(fr))
+			inner := t.pred
+			t.pred = func(addr Term) Term { return And(locals(addr), inner(addr)) }
 			st.AllHavocs = append(st.AllHavocs, t.pred)
 		}
 		for _, k := range keys {
 			if _, ok := st.MemSort[k]; !ok {
-				continue
+				so, known := t.sortOf[k]
+				if !known {
+					continue
+				}
+				u.getMem(st, k, so)
 			}
 			if t.addr != nil {
 				so := st.MemSort[k]
